@@ -151,6 +151,8 @@ class ToBits(_BitsCfg):
         d["S.bool"] = Implies(on(c), And(*[is01(c.eva(b)) for b in r]))
         d["S.recompose"] = Implies(on(c), bitsum([c.eva(b) for b in r]) == c.eva(x))
         d["S.range"] = Implies(on(c), c.eva(x) < (1 << n))
+        # uniqueness of the binary representation: with the operand wire tied to its value, every bit wire is forced
+        d["S.unique"] = Implies(And(on(c), c.tied(x), v >= 0, v < (1 << n)), And(*[c.eva(b) == bit(v, i) for i, b in enumerate(r)]))
         if n >= 1:
             d["canary.S.range"] = Implies(on(c), c.eva(x) < (1 << (n - 1)))
         return d
@@ -225,6 +227,9 @@ class CheckPositive(_BitsCfg):
             "V.invalid": Implies(Not(self._ok(c, x, bits)), Eq(c.v(r), 0)),
             "V.inv": c.inv(r),
             "S.bool": Implies(on(c), is01(ra)),
+            # lemma steps (each proved, then available to the next): the two cases of the sign bit
+            "S.sign_if_one": Implies(And(on(c), ra == 1), xa < (1 << n)),
+            "S.sign_if_zero": Implies(And(on(c), ra == 0), xa >= c.p - (1 << n)),
             "S.sign": Implies(on(c), Or(And(ra == 1, xa < (1 << n)), And(ra == 0, xa >= c.p - (1 << n)))),
             "canary.S.sign": Implies(on(c), Or(And(ra == 1, xa < (1 << n) - 1), And(ra == 0, xa >= c.p - (1 << n)))),
         }
